@@ -13,7 +13,7 @@ from common import Quiet, blit, coq_bad, known_open, listlit, optlit, pmap, zlit
 
 SIG_D8 = "skip-last-component-leaks"
 
-SCANS = ["*", "*", "1*", "2*", "1-3", "0-2", "0+2+4", "1-2+4", "3", "0", "3-1"]
+SCANS = ["*", "*", "1*", "2*", "1-3", "0-2", "0+2+4", "1-2+4", "3", "0", "3-1", "3+1", "4+0+2", "4+1-2"]      # the last three: a list written out of order
 
 
 # ---------------------------------------------------------------- the fragment
@@ -214,7 +214,7 @@ def run(ctx):
     ctx.coverage.update({
         "evaluations": len(jobs), "distinct_nontrivial": len(fired),
         "rule": "enumeration: a control component (12 forms of conditional/unconditional stop, skip, advance(n), last-stop) at every position among 1-4 pushing components, firing line 0..6, "
-                "20% with an extra bare filter component, 40% with a trailing last()/last.nocontrib() -> push component; each with a random scan window (11 forms), file of 1-8 records "
+                "20% with an extra bare filter component, 40% with a trailing last()/last.nocontrib() -> push component; each with a random scan window (14 forms, three of them lists written out of order), file of 1-8 records "
                 "with interior/trailing blank records, 15% in return-mode no-matches (quick: first 1800 programs of the shuffled enumeration; thorough: all x 6 files). "
                 "Non-trivial = distinct case that ran without exception and pushed or stopped.",
         "samples": [describe(jobs[0], res[0]), describe(jobs[len(jobs) // 2], res[len(jobs) // 2])],
